@@ -5651,6 +5651,10 @@ def merge_parts(parts, reassign="voice"):
         parts = parts.parts
     else:
         parts = list(iter_parts(parts))
+    # a part that is reachable more than once (listed twice, or on its own and
+    # within its group) is one input: its elements can only be transferred once.
+    # Parts are told apart by identity; different parts may carry the same id.
+    parts = list({id(p): p for p in parts}.values())
 
     # if there is only one part (it could be a list with one part or a partGroup with one part)
     if len(parts) == 1:
